@@ -8,6 +8,7 @@ import (
 	"fmt"
 	"io"
 	"net"
+	"net/http"
 	"os"
 	"path/filepath"
 	"strings"
@@ -98,6 +99,7 @@ type c09Case struct {
 	ConnNominated bool            `json:"connection_nominates_field,omitempty"`
 	Path          string          `json:"path,omitempty"`
 	Trailers      bool            `json:"chunked_upload_with_identity_trailers,omitempty"`
+	BadStart      string          `json:"fetch_reply_start_time,omitempty"` // the proxy's fetch reply asserts the identity but its start-time field is missing / not RFC 3339: the request may be dropped, but if it is forwarded it carries the identity
 }
 
 // C09 — identity and credential headers are trustworthy.
@@ -140,6 +142,33 @@ func C09(r *core.Run) {
 			}
 			defer px.Close()
 			px.ListWait = 50 * time.Millisecond
+			type badFetch struct {
+				kind, user string
+				raw        []byte
+			}
+			var bmu sync.Mutex
+			badStart := map[string]badFetch{}
+			px.OnFetch = func(id string, w http.ResponseWriter, req *http.Request) bool {
+				bmu.Lock()
+				b, ok := badStart[id]
+				bmu.Unlock()
+				if !ok {
+					return false
+				}
+				w.Header().Set("X-Inverting-Proxy-Request-ID", id)
+				w.Header().Set("X-Inverting-Proxy-User-ID", b.user)
+				switch b.kind {
+				case "unix":
+					w.Header().Set("X-Inverting-Proxy-Request-Start-Time", fmt.Sprint(time.Now().Unix()))
+				case "garbled":
+					w.Header().Set("X-Inverting-Proxy-Request-Start-Time", "yesterday, around noon")
+				case "empty":
+					w.Header().Set("X-Inverting-Proxy-Request-Start-Time", "")
+				}
+				w.WriteHeader(200)
+				w.Write(b.raw)
+				return true
+			}
 			args := []string{fmt.Sprintf("--forward-user-id=%v", cfg.fwd), fmt.Sprintf("--strip-credentials=%v", cfg.strip)}
 			if cfg.shim {
 				args = append(args, "--shim-path=shim", "--shim-websockets=true")
@@ -187,13 +216,19 @@ func C09(r *core.Run) {
 					// (the last three are different header names that merely resemble the trusted one: they may travel on as they are,
 					// but must never end up as values of the trusted field)
 					name := []string{"X-Inverting-Proxy-User-ID", "x-inverting-proxy-user-id", "X-INVERTING-PROXY-USER-ID", "X-Inverting-Proxy-User-Id", "x-InVerTing-proXy-uSer-id",
-						"X_Inverting_Proxy_User_ID", "x_inverting_proxy_user_id", "X-Inverting-Proxy-User_ID"}[rng.Intn(8)]
+						"X_Inverting_Proxy_User_ID", "x_inverting_proxy_user_id", "X-Inverting-Proxy-User_ID",
+						"X-Websocket-Shim-Header-X-Inverting-Proxy-User-ID", "X-Forwarded-X-Inverting-Proxy-User-ID", "X-Original-X-Inverting-Proxy-User-ID"}[rng.Intn(11)]
 					val := []string{"forged-" + tok + "@evil.example", "admin@example.com", "", c.Identity}[rng.Intn(4)]
 					c.Fields = append(c.Fields, rawhttp.Field{Name: name, Value: val})
 				}
 				auth := rng.Intn(4)
 				for k := 0; k < auth; k++ {
 					name := []string{"Authorization", "authorization", "AUTHORIZATION", "AuThOrIzAtIoN"}[rng.Intn(4)]
+					if k == auth-1 && rng.Intn(4) == 0 {
+						// a differently named field that merely ends in the credential field's name: it may travel on under its
+						// own name, but nothing may turn it into an Authorization field
+						name = []string{"X-Websocket-Shim-Header-Authorization", "X-Forwarded-Authorization", "X-Original-Authorization", "X-Shim-Authorization"}[rng.Intn(4)]
+					}
 					val := []string{"Basic " + base64.StdEncoding.EncodeToString([]byte("u:"+tok)), "Bearer secret-" + tok, "Negotiate x" + tok}[rng.Intn(3)]
 					if k == 0 && auth > 1 && rng.Intn(3) == 0 {
 						val = []string{"", " "}[rng.Intn(2)] // an empty first value followed by a real one
@@ -237,6 +272,10 @@ func C09(r *core.Run) {
 				}
 				if c.Shim {
 					c.URLForm = []string{"absolute", "absolute", "userinfo", "path-only", "userinfo-no-password"}[rng.Intn(5)]
+				}
+				if i%11 == 7 {
+					c.BadStart = []string{"missing", "unix", "garbled", "empty"}[(i/11)%4]
+					idKind += "+fetch-reply-start-time-" + c.BadStart
 				}
 				if c.Shim && i%12 == 6 {
 					// an open request padded beyond the backend's header-block limit: the backend turns the handshake down;
@@ -283,8 +322,15 @@ func C09(r *core.Run) {
 					} else {
 						w.Line("GET "+c.Path+" HTTP/1.1").Field("Host", "c09.example").Field("X-Tok", c.Tok).Fields(c.Fields).End()
 					}
+					wait := 20 * time.Second
+					if c.BadStart != "" {
+						bmu.Lock()
+						badStart[c.Tok] = badFetch{kind: c.BadStart, user: c.Identity, raw: append([]byte(nil), w.Bytes()...)}
+						bmu.Unlock()
+						wait = 1500 * time.Millisecond // the agent may (and the unchanged one does) drop such a request
+					}
 					px.Enqueue(c.Tok, w.Bytes(), c.Identity)
-					up, ok := px.Wait(c.Tok, 20*time.Second)
+					up, ok := px.Wait(c.Tok, wait)
 					if ok && c.Shim && up.Resp != nil && up.Resp.Status == 200 {
 						// close the shim session again
 						var m struct {
@@ -311,14 +357,16 @@ func C09(r *core.Run) {
 				backend.mu.Unlock()
 				userinfo := strings.HasPrefix(c.URLForm, "userinfo")
 				if len(reqs) == 0 {
-					if !userinfo { // a URL with credentials may be refused before anything is dialled
+					if c.BadStart != "" {
+						r.Add("requests_dropped_for_a_malformed_start_time", 1)
+					} else if !userinfo { // a URL with credentials may be refused before anything is dialled
 						r.Inconclusive(fmt.Sprintf("request %s (%s) never reached the backend", c.Tok, c.Class))
 					} else {
 						r.Add("shim_opens_with_userinfo_refused", 1)
 					}
 					continue
 				}
-				if c.Shim && !sawWS && !userinfo {
+				if c.Shim && !sawWS && !userinfo && c.BadStart == "" {
 					r.Inconclusive(fmt.Sprintf("shim open %s did not produce a websocket handshake", c.Tok))
 				}
 				kind := "plain"
